@@ -58,10 +58,16 @@ VIEWER_EXTERNS = {
     ("CubicBezier2D", "gen_points"): {"lean": "Src.CubicBezier2D.gen_points", "params": [("self", "CubicBezier2D", "ref")], "ret": "Pt2s", "selfmode": "ref"},
     ("CubicBezier3D", "gen_points"): {"lean": "Src.CubicBezier3D.gen_points", "params": [("self", "CubicBezier3D", "ref")], "ret": "Pt3s", "selfmode": "ref"},
 }
+TRANSLATE["thread_mesh"] = [(None, "threaded_cylinder")]
+THREAD_MESH_EXTERNS = {
+    (None, "lerp"): {"lean": "Src.metric_thread.lerp", "params": [("start", "Pt3", "val"), ("end", "Pt3", "val"), ("n_steps", "usize", "val"), ("step", "usize", "val")], "ret": "Pt3", "selfmode": None},
+    ("Polyhedron", "cylinder"): {"lean": "Src.Polyhedron.cylinder", "params": [("radius", "f64", "val"), ("height", "f64", "val"), ("segments", "u64", "val")], "ret": "Polyhedron", "selfmode": None, "partial": True},
+    ("Polyhedron", "into_scad"): {"lean": "Src.Polyhedron.into_scad", "params": [("self", "Polyhedron", "val")], "ret": "Scad", "selfmode": "val"},
+}
 TRANSLATE["thread_parts"] = [(None, "threaded_rod"), (None, "tap"), (None, "hex_bolt"), (None, "hex_nut")]
-SOURCE = {"pipe": "pipe", "scad": "scad", "thread_parts": "metric_thread", "poly": "dim3", "chain2": "dim2", "chain3": "dim3", "viewer": "viewer"}
+SOURCE = {"pipe": "pipe", "scad": "scad", "thread_parts": "metric_thread", "poly": "dim3", "chain2": "dim2", "chain3": "dim3", "viewer": "viewer", "thread_mesh": "metric_thread"}
 OUTNAME = {"pipe": "SrcPipe", "scad": "SrcScad", "thread_parts": "SrcThreadParts", "poly": "SrcPolyhedron",
-           "chain2": "SrcChain2", "chain3": "SrcChain3", "viewer": "SrcViewer"}
+           "chain2": "SrcChain2", "chain3": "SrcChain3", "viewer": "SrcViewer", "thread_mesh": "SrcThreadMesh"}
 # the ear-clipping entry points stay hand-modelled (Model/Tri.lean): named directly in the mesh builders
 POLY_EXTERNS = {
     (None, "triangulate2d"): {"lean": "Tri.triangulate2d", "params": [("vertices", "Pt2s", "ref")], "ret": "Indices", "selfmode": None, "partial": True},
@@ -146,6 +152,11 @@ def generate_file(repo, only):
         ctx.sigs.update(POLY_EXTERNS)
         ctx.structs["Polyhedron"] = {"fields": [("points", "Pt3s"), ("faces", "Faces")], "derives": []}
         ctx.record_structs = {"Polyhedron"}
+    if only == "thread_mesh":
+        ctx.sigs.update(THREAD_MESH_EXTERNS)
+        ctx.ops[("+", "Scad", "Scad")] = ("Src.Scad.add_Scad", "Scad")
+        ctx.structs["Polyhedron"] = {"fields": [("points", "Pt3s"), ("faces", "Faces")], "derives": []}
+        ctx.record_structs = {"Polyhedron"}
     if only == "thread_parts":
         ctx.sigs.update(EXTERNS)
         ctx.ops[("-", "Scad", "Scad")] = ("Src.Scad.sub_Scad", "Scad")
@@ -228,13 +239,14 @@ def generate_file(repo, only):
            ["import ScadVerif.Gen.SrcScad", "import ScadVerif.Gen.SrcMetricThread", "import ScadVerif.Model.Thread"] if only == "thread_parts" else []) + (
            ["import ScadVerif.Model.Dim3"] if only == "poly" else []) + (
            ["import ScadVerif.Model.Dim2"] if only == "chain2" else []) + (
+           ["import ScadVerif.Gen.SrcScad", "import ScadVerif.Gen.SrcMetricThread", "import ScadVerif.Gen.SrcPolyhedron"] if only == "thread_mesh" else []) + (
            ["import ScadVerif.Gen.SrcScad", "import ScadVerif.Gen.SrcChain2", "import ScadVerif.Gen.SrcChain3", "import ScadVerif.Gen.SrcPolyhedron",
             "import ScadVerif.Model.Viewer"] if only == "viewer" else []) + (
            ["import ScadVerif.Model.Dim3", "import ScadVerif.Gen.SrcDim3"] if only == "chain3" else []) + [
            "set_option linter.unusedVariables false",
            "namespace ScadVerif",
            "variable {α : Type} [Add α] [Sub α] [Mul α] [Div α] [Neg α] [OfNat α 0] [OfNat α 1]",
-           "  [OfNatCast α] [Trig α] [HasSqrt α] [HasAbs α] [Cmp α]" + (" [HasTrunc α]" if only == "thread_parts" else ""), ""]
+           "  [OfNatCast α] [Trig α] [HasSqrt α] [HasAbs α] [Cmp α]" + (" [HasTrunc α]" if only in ("thread_parts", "thread_mesh") else ""), ""]
     for (ty, nm) in wanted:
         fn, tname = found[(ty, nm)]
         sig = fn["_sig"]
